@@ -9,7 +9,8 @@
    theorems hold for every [rl]; the horizon theorem needs [rl_fixed] and is refuted for [rl_orig]. *)
 From Coq Require Import QArith List Arith Lia.
 From AIT Require Import C19.Model C19.Spec C19.Proofs C19.ProofsMCTS C19.ProofsPOMCP C19.ProofsTop C19.ProofsRange C19.ProofsRange2 C19.ProofsParticles C19.ProofsParticles2
-  C19.ModelR C19.SpecR C19.ProofsR C19.ProofsR2 C19.ProofsR3 C19.ProofsR4.
+  C19.ModelR C19.SpecR C19.ProofsR C19.ProofsR2 C19.ProofsR3 C19.ProofsR4
+  C19.ProofsR5 C19.ProofsR6 C19.ProofsR7 C19.ProofsR8.
 Import ListNotations.
 Local Open Scope nat_scope.
 
@@ -291,6 +292,67 @@ Theorem promoted_belief_consistent_rpomcp : forall A term disc k entropy plogp p
   end.
 Proof. exact r_promoted_belief_lemma. Qed.
 Print Assumptions promoted_belief_consistent_rpomcp.
+
+(* ---------------- rPOMCP, round 3 ---------------- *)
+
+(* FULL particle consistency for rPOMCP, one call at a time (compose along a history): from a state
+   (sampling belief sb0, tree g) in which every particle of every node has a predecessor in the belief
+   its parent simulates from (the positive part of the sampling belief for the root, of the tracking
+   belief otherwise) under exactly the node's (action, observation), a call on a COHERENT log
+   ([r_coh_op], evaluated by the driver on every real log) ends in such a state again; the initial state
+   (any sb0, rnode0) satisfies it vacuously.  Not proved: that the particles drawn for a call from scratch
+   lie in the support of the given belief (inputs of the machine; oracle). *)
+Theorem particles_consistent_full_rpomcp : forall A term disc k entropy plogp pool iters sb0 g op tr sb' g' a tr' sts,
+  0 < A -> r_coh_op A term disc k entropy plogp iters g op tr = true ->
+  trace_ok A tr -> incl tr pool ->
+  rcounts_ok g /\ rmean_ok g /\ rshape_ok A g /\ rpart_ok g -> rfull pool (sbpos sb0) g ->
+  r_op A term disc k entropy plogp iters g op tr = (sb', (g', a, tr', sts)) ->
+  rfull pool (sbpos sb') g'.
+Proof. exact r_particles_full_lemma. Qed.
+Print Assumptions particles_consistent_full_rpomcp.
+
+(* Value range.  INTENDED statement (value_in_range_rpomcp): in the max-of-belief variant every data
+   reward is a knowledge measure in [0,1], so every visited action's value at depth d lies in
+   [0, sum_{k<h-d} disc^k].  It is REFUTED on the faithful machine and on the real code (known finding):
+   the value a node hands to its parent, (N-1)*(V-oldV)+V, presumes that the parent averaged N-1 data
+   points equal to oldV, but visits of the node as a leaf contributed 0 and are counted in N. *)
+Theorem value_in_range_rpomcp_refuted : exists A term disc k iters sb h tr sb' g' a tr' sts,
+  0 < A /\ trace_ok A tr /\
+  r_op A term disc k false (fun _ _ => 0%Q) iters rnode0 (RFresh sb h) tr = (sb', (g', a, tr', sts)) /\
+  tr' = [] /\ exists x, In x (racts g') /\ 0 < raN x /\ (raV x < 0)%Q.
+Proof. exact r_range_refuted_lemma. Qed.
+Print Assumptions value_in_range_rpomcp_refuted.
+
+(* What does hold (partial): the leaf data points.  Max-of-belief: the knowledge measure written by
+   updateBeliefAndKnowledge on a node holding one particle per visit (rpart_ok, proved for every
+   history) lies in [0,1].  (Entropy variant: the measure is a sum of the abstract plogp terms; no bound
+   is proved.) *)
+Theorem value_in_range_rpomcp_partial : forall plogp n s, tcount (rtrack n) = rN n ->
+  (0 <= rkm (r_update false plogp n s))%Q /\ (rkm (r_update false plogp n s) <= 1)%Q.
+Proof. exact r_update_km_unit. Qed.
+Print Assumptions value_in_range_rpomcp_partial.
+
+(* bestAction / actionsV consistency.  INTENDED invariant: after any history, every non-root belief node
+   with N >= k has actionsV = max_a children[a].V and bestAction attains it ([maxcons]).
+   Proved (partial): below the root, the simulate visit that makes N == k ESTABLISHES maxcons (forced
+   rescan) and every later simulate visit PRESERVES it — for every k, variant and trace … *)
+Theorem best_action_consistent_rpomcp_partial : forall A term disc k entropy plogp fuel h d b s tr b' ret tr' st,
+  r_simulate A term disc k entropy plogp (S fuel) h d b s tr = (b', ret, tr', st) -> d <> 0 -> k <= S (rN b) ->
+  ea (fst (next tr)) < length (racts b) ->
+  S (rN b) = k \/ maxcons b ->
+  maxcons b'.
+Proof. exact r_simulate_maxcons. Qed.
+Print Assumptions best_action_consistent_rpomcp_partial.
+
+(* … but the unconditional invariant is REFUTED: when the visit that makes N == k is a LEAF visit
+   (terminal s1: N += 1 without simulate) the forced rescan never happens and the max mode runs on the
+   stale mean-mode actionsV (k = 3: N = 4, actionsV = -1/2, bestAction = 0, values (-1, -1)). *)
+Theorem best_action_consistent_rpomcp_refuted : exists A term disc k entropy plogp iters sb h tr g' c,
+  trace_ok A tr /\
+  fst (fst (fst (snd (r_op A term disc k entropy plogp iters rnode0 (RFresh sb h) tr)))) = g' /\
+  In (0, c) (rkids (nth 0 (racts g') ract0)) /\ k <= rN c /\ ~ maxcons c.
+Proof. exact r_maxcons_refuted_lemma. Qed.
+Print Assumptions best_action_consistent_rpomcp_refuted.
 
 (* the boolean checkers the driver runs on the implementation's outputs are sound *)
 Theorem counts_checker_sound : forall n, counts_okb n = true -> counts_ok n.
